@@ -31,6 +31,7 @@ def ChainKeysClause (first prev : Bundle) : Prop := ∀ k ∈ first.keys, k ∈ 
 /-- the previous last bundle's expiration minus the KSR's first inception lies within the KSR's
     declared [min, max] overlap, both ends included -/
 def ChainOverlapClause (zp : SigPolicy) (first prev : Bundle) : Prop :=
+  first.inception ≤ prev.expiration ∧
   zp.minValidityOverlap ≤ prev.expiration - first.inception ∧
   prev.expiration - first.inception ≤ zp.maxValidityOverlap
 
@@ -94,7 +95,9 @@ theorem chain_overlap_iff (ksr : Request) (last : Response) (pol : RequestPolicy
     · simp; omega
     · split
       · simp; omega
-      · simp; omega
+      · split
+        · simp; omega
+        · simp; omega
 
 /-- **Exactly when `public_key_to_dnssec_key` can fail on the token's key text** (called with flags
     257, the signature's identifier, algorithm and TTL): it succeeds iff `Derivable pk alg` — the
@@ -262,6 +265,7 @@ theorem empty_refused (ksr : Request) (last : Response) (pol : RequestPolicy)
 theorem overlap_boundaries_inclusive (ksr : Request) (last : Response) (pol : RequestPolicy)
     (first prev : Bundle) (hf : ksr.bundles.head? = some first) (hl : last.bundles.getLast? = some prev)
     (hmm : ksr.zskPolicy.minValidityOverlap ≤ ksr.zskPolicy.maxValidityOverlap)
+    (hng : first.inception ≤ prev.expiration)
     (hb : prev.expiration - first.inception = ksr.zskPolicy.minValidityOverlap ∨
           prev.expiration - first.inception = ksr.zskPolicy.maxValidityOverlap) :
     checkChainOverlap ksr last pol = .ok () := by
@@ -405,6 +409,9 @@ structure HonestSuccessor (last : Response) (ksr : Request) (tok : Option TokenL
   freshId : ksr.id ≠ last.id
   freshBundleIds : ∀ kb ∈ ksr.bundles, ∀ sb ∈ last.bundles, kb.id ≠ sb.id
   keysCarried : ∀ k ∈ first.keys, k ∈ prev.keys
+  /-- an honest successor continues the timeline: it leaves no gap … -/
+  noGap : first.inception ≤ prev.expiration
+  /-- … and overlaps by an amount inside the window it declares -/
   overlapDeclared : ksr.zskPolicy.minValidityOverlap ≤ prev.expiration - first.inception ∧
     prev.expiration - first.inception ≤ ksr.zskPolicy.maxValidityOverlap
   signersOnToken : ∀ lookup, tok = some lookup →
@@ -415,37 +422,30 @@ theorem honest_successor_accepted (ksr : Request) (last : Response) (pol : Reque
     (tok : Option TokenLookup) (first prev : Bundle) (h : HonestSuccessor last ksr tok first prev) :
     checkSkrAndKsr ksr last pol tok = .ok () := by
   apply (C08_iff ksr last pol tok first prev h.first_is h.prev_is ?_).mpr
-  · exact ⟨h.freshId, h.freshBundleIds, fun _ => h.keysCarried, fun _ => h.overlapDeclared,
+  · exact ⟨h.freshId, h.freshBundleIds, fun _ => h.keysCarried, fun _ => ⟨h.noGap, h.overlapDeclared⟩,
       fun lookup ht _ => (h.signersOnToken lookup ht).2⟩
   · intro hs
     cases tok with
     | none => simp at hs
     | some lookup => exact (h.signersOnToken lookup rfl).1
 
-/-! ## Gaps: what the chain-overlap rule does and does not exclude (DESIGN §5 F10)
+/-! ## Gaps (DESIGN §5 F10, repaired in /repo)
 
-  Full statement one would like (it is what C10's "no coverage gap" needs):
+  On the pinned tree the chain-overlap rule had no gap test of its own and compared only against the
+  KSR's *declared* minimum, which may be negative (`P0D-86400` parses to −1 day): a 12 h gap between
+  SKR(n−1) and KSR(n) was accepted.  /repo now applies the same explicit test as the intra-KSR rule;
+  the model follows, and the no-gap statement holds unconditionally. -/
 
-      accepted ∧ check_chain_overlap  ⇒  ksr.first.inception ≤ last.last.expiration
-
-  It is FALSE of the model and of /repo alike: the rule has no gap test of its own (unlike the
-  intra-KSR overlap rule) and compares against the KSR's *declared* minimum, which may be negative.
-  Proved below: the statement under `0 ≤ declared minimum` (`chain_no_gap_partial`), and the negation
-  of the unconditional statement with a concrete witness (replayed on the real code by corr_C08).
-  For C08 itself this is not a violation: C08 asks for the overlap to lie within the declared window,
-  which a negative declared minimum satisfies. -/
-
-theorem chain_no_gap_partial (ksr : Request) (last : Response) (pol : RequestPolicy)
+theorem chain_no_gap (ksr : Request) (last : Response) (pol : RequestPolicy)
     (tok : Option TokenLookup) (first prev : Bundle)
     (hf : ksr.bundles.head? = some first) (hl : last.bundles.getLast? = some prev)
-    (hok : checkSkrAndKsr ksr last pol tok = .ok ()) (hflag : pol.checkChainOverlap = true)
-    (hmin : 0 ≤ ksr.zskPolicy.minValidityOverlap) : first.inception ≤ prev.expiration := by
+    (hok : checkSkrAndKsr ksr last pol tok = .ok ()) (hflag : pol.checkChainOverlap = true) :
+    first.inception ≤ prev.expiration := by
   have := (C08_sound ksr last pol tok first prev hf hl hok).2.2.2.1 hflag
-  unfold ChainOverlapClause at this
-  omega
+  exact this.1
 
-/-- witness: previous last bundle expires at day 21, the KSR's first bundle starts half a day later,
-    the KSR declares a minimum overlap of −1 day (what `P0D-86400` parses to) -/
+/-- the former witness — previous last bundle expires at day 21, the KSR's first bundle starts half a
+    day later, the KSR declares a minimum overlap of −1 day — is now refused -/
 def gapLast : Response :=
   { id := "skr0", serial := 1, domain := ".", zskPolicy := {}, kskPolicy := {},
     bundles := [{ id := "a1", inception := 0, expiration := 21 * usPerDay, keys := [], signatures := [] }] }
@@ -455,15 +455,8 @@ def gapKsr : Request :=
     bundles := [{ id := "b1", inception := 21 * usPerDay + usPerDay / 2, expiration := 43 * usPerDay,
                   keys := [], signatures := [] }] }
 
-theorem chain_no_gap_unconditional_false :
-    ¬ (∀ (ksr : Request) (last : Response) (pol : RequestPolicy) (tok : Option TokenLookup)
-        (first prev : Bundle), ksr.bundles.head? = some first → last.bundles.getLast? = some prev →
-        checkSkrAndKsr ksr last pol tok = .ok () → pol.checkChainOverlap = true →
-        first.inception ≤ prev.expiration) := by
-  intro h
-  have := h gapKsr gapLast {} none _ _ rfl rfl (by decide +kernel) rfl
-  revert this
-  decide +kernel
+theorem gap_witness_refused :
+    checkSkrAndKsr gapKsr gapLast {} none = violation .chainOverlap := by decide +kernel
 
 /-! ## Non-vacuity: a quarter-to-quarter hand-over shaped like the archived pairs
     (previous last bundle: ZSKs `Z1`,`Z2` and KSK `K`, signed by `K`, expiring day 101; the KSR's
